@@ -8,7 +8,7 @@ def run(ctx):
                   "through the predicate that looks up that very suppressed set, and the summary is emitted before "
                   "any section and is not gated by --stat; the counters of filtered-out changes are computed only after every "
                   "category-writing pass has run")
-    ctx.rules = ["R-NETPAIR", "R-SECTION", "R-STATFIRST", "R-CHGKIND/b", "R-CATORDER", "R-OPTGATE"]
+    ctx.rules = ["R-NETPAIR", "R-SECTION", "R-STATFIRST", "R-CHGKIND/b", "R-CATORDER", "R-OPTGATE", "R-SORTALL"]
     P = ctx.program(at.UNITS)
     sa.check_netpair(ctx, P)
     sa.check_section(ctx, P)
@@ -16,5 +16,34 @@ def run(ctx):
     sa.check_chgkind_b(ctx, P)
     sa.check_catorder(ctx, P)
     sa.check_optgate(ctx, P)
+    check_sortall(ctx, P)
     ctx.assume("arithmetic on the actual counts is runtime; it follows when count and listing provably use the same "
                "container and filter")
+
+
+
+def check_sortall(ctx, P):
+    """R-SORTALL: the summary counts the *maps* (sizes, minus what is filtered), the sections iterate the *sorted vectors*
+    that the sort_* helpers of abg-comparison.cc derive from those maps.  Count and listing agree only if a helper copies
+    every element: in each helper the push into the output vector runs on every iteration of its loop (no enclosing
+    condition, no earlier continue / break).  21 sibling helpers, all unconditional on the tree this was written for."""
+    from engine.facts import walk, member_call_object
+    from rules.C11 import guards_of
+    n = 0
+    for f in sorted(P.all_funcs(), key=lambda x: (x.file, x.l0)):
+        if f.dep or f.cfg() is None or not f.n.startswith("sort_") or not f.q.startswith("abigail::comparison"):
+            continue
+        outs = [p for p in f.r["params"] if (f.unit.type((f.unit.decl(p) or {}).get("t")) or {}).get("ref") and
+                not (f.unit.type((f.unit.decl(p) or {}).get("t")) or {}).get("const")]
+        pushes = [x for x in f.nodes() if x["k"] == "CXXMemberCallExpr" and (f.decl(x) or {}).get("n") in ("push_back", "emplace_back") and
+                  any(y["k"] == "DeclRefExpr" and y.get("d") in outs for y in walk(member_call_object(x)))]
+        for p in pushes:
+            n += 1
+            ctx.analysed(f)
+            g = guards_of(f, p)
+            sig = f.sig[f.sig.index("("):][:40]
+            ctx.ob("R-SORTALL", "%s%s copies every element of its input" % (f.n, sig), not g, f.loc(p),
+                   "unconditional push_back in the loop" if not g else
+                   "the element is pushed only under %s: entries that the summary counts (the size of the map) are missing from "
+                   "the sorted vector the report lists" % g)
+    ctx.floor("R-SORTALL", "sort helpers that fill a vector", n, 18)
